@@ -4,6 +4,7 @@ import TacklerModel.Props.C17b
 import TacklerModel.Props.C16
 import TacklerModel.Props.C09
 import TacklerModel.Props.C15
+import TacklerModel.Props.C05
 /-!
 # E2Ec — end-to-end theorems, third part: displayed figures, account selectors, report zone
 
@@ -429,6 +430,63 @@ theorem files_rejects_bad_posting (cfg : Time.TsCfg) (st : Settings) (files : Li
   obtain ⟨s₃, t, s₄, hok⟩ := C15.mapMS_ok_all acceptTxn rs s₁ s₂ ts₁ hacc r hr
   exact badPosting_not_accepted r rp hrp hbad s₃ t s₄ hok
 
+
+/-! ## 3d. Size independence (what a block-wise or batch-wise implementation has to equal) -/
+
+/-- **C05 — `filter_blockwise`.**  The selection is made transaction by transaction: cutting the journal into any blocks,
+    selecting in each block and concatenating gives the selection of the whole — for every cutting, so for blocks of
+    `len / 4` with a remainder as for any other (the seeded change C05-9 drops the remainder block). -/
+theorem filter_blockwise (m : String → String → Bool) (f : Filter) (blocks : List (List Txn)) :
+    filterTxns m f blocks.flatten = (blocks.map (filterTxns m f)).flatten := by
+  induction blocks with
+  | nil => rfl
+  | cons b rest ih =>
+    simp only [List.flatten_cons, List.map_cons]
+    rw [← ih]
+    exact List.filter_append ..
+
+/-- … and in particular nothing of a journal is outside its blocks: the selected and the rejected transactions of all
+    blocks together are as many as the journal has -/
+theorem filter_blockwise_complete (m : String → String → Bool) (f : Filter) (blocks : List (List Txn)) :
+    ((blocks.map (filterTxns m f)).flatten).length + ((blocks.map (filterTxns m (.not f))).flatten).length
+      = blocks.flatten.length := by
+  rw [← filter_blockwise, ← filter_blockwise]
+  exact (C05.partition m f blocks.flatten).2
+
+
+/-- **C06 — `identityExport_batchwise`.**  The identity export is one transaction text after the other (each followed
+    by its blank line): writing the journal in batches of any sizes and concatenating the batches' texts gives the export
+    of the whole — for every cutting (the seeded change C06-10 joins inside batches of 1024 and writes nothing between
+    two batches). -/
+theorem identityExport_batchwise (div : Dec → Dec → Dec) (batches : List (List Txn)) :
+    Print.identityExport div batches.flatten = (batches.map (Print.identityExport div)).flatten := by
+  have hlead : Print.blankLines Print.Layout.identity Print.Layout.identity.lead = [] := by decide
+  have h1 : ∀ ts : List Txn, Print.identityExport div ts = (ts.map (Print.txnL Print.Layout.identity div)).flatten := by
+    intro ts
+    unfold Print.identityExport Print.printL
+    rw [hlead]; rfl
+  induction batches with
+  | nil => simp [h1]
+  | cons b rest ih =>
+    simp only [List.flatten_cons, List.map_cons]
+    rw [← ih, h1, h1, h1, List.map_append, List.flatten_append]
+
+
+/-- **C02 — `sums_blockwise`.**  The exact account sum and tree sum over a journal are the sums of the blocks' exact
+    sums, for every cutting of the posting stream into blocks: what any chunked, batched or parallel summation has to
+    equal (with `C02.own_sum` / `tree_sum`: what the balance report shows). -/
+theorem sums_blockwise (blocks : List (List BPost)) (k : AKey) :
+    C02.ownSum blocks.flatten k = (blocks.map (fun b => C02.ownSum b k)).sum ∧
+    C02.treeSum blocks.flatten k = (blocks.map (fun b => C02.treeSum b k)).sum := by
+  induction blocks with
+  | nil => simp [C02.ownSum, C02.treeSum]
+  | cons b rest ih =>
+    simp only [List.flatten_cons, List.map_cons, List.sum_cons]
+    rw [← ih.1, ← ih.2]
+    unfold C02.ownSum C02.treeSum
+    simp only [List.filter_append, List.map_append, List.sum_append]
+    exact ⟨trivial, trivial⟩
+
 /-! ## 4. Non-vacuity: the sample text of `Props/E2E.lean` through the new theorems -/
 namespace ExC
 open Ex
@@ -490,6 +548,27 @@ theorem badText_parses : parseJournal utc badText = some [badR1, badR2] := by de
 example : ∀ ts st', loadText utc lax0 badText ≠ .ok (ts, st') :=
   text_rejects_bad_posting utc lax0 badText _ badText_parses badR2 (by decide) _ List.mem_cons_self
     (.inr (.inr (.inr ⟨_, _, rfl, rfl, by decide⟩)))
+
+/-! ### regression witnesses of the fifth round of seeded changes -/
+
+/-- C01-9: the *written* amounts cancel (`10 ACME @ 2 EUR` / `-10 EUR`), the values do not (20 − 10): not accepted -/
+def writtenCancel : List Char := "2024-01-01\n a 10 ACME @ 2 EUR\n c -10 EUR\n".toList
+example : ∀ ts st', loadText utc lax0 writtenCancel ≠ .ok (ts, st') := by
+  intro ts st' h
+  have : loadText utc lax0 writtenCancel = .err := by decide
+  rw [this] at h; cases h
+
+/-- C01-10: explicit postings in two commodities without a closing price plus an amount-less last posting: not accepted -/
+def mixedWithImplicit : List Char := "2024-01-01\n h 100 EUR\n t 20 USD\n cash\n".toList
+example : ∀ ts st', loadText utc lax0 mixedWithImplicit ≠ .ok (ts, st') := by
+  intro ts st' h
+  have : loadText utc lax0 mixedWithImplicit = .err := by decide
+  rw [this] at h; cases h
+
+/-- C05-10: a box across the antimeridian (west 170 > east −170) is inclusive at its east edge: a transaction located at
+    longitude exactly −170 is selected (instance of `C05.bbox_spec`) -/
+example : Filter.eval (fun _ _ => false) (.bbox ⟨true, 10, 0⟩ ⟨false, 170, 0⟩ ⟨false, 10, 0⟩ ⟨true, 170, 0⟩)
+    ⟨⟨⟨0, 0⟩, none, none, none, some ⟨⟨false, 0, 0⟩, ⟨true, 170, 0⟩, none⟩, none, none⟩, []⟩ = true := by decide
 
 end ExC
 
